@@ -141,6 +141,9 @@ def gen(tier, rng):
     # whitespace that is not BibTeX's (NBSP, thin space, VT, FF, LS): part of a word, never stripped or split at
     for t in C.token_strings(["Aa", "bb", " and ", " ", ",", "\u00a0", "\u2009", "\x0b", "\x0c", "\u2028"], 4 if tier == "quick" else 5):
         yield {"kind": "pair", "t": t}
+    # line ends inside name lists as files with CR / CRLF line ends have them; a character whose lower() is two code points
+    for t in C.token_strings(["Aa", "bb", "and", " ", ",", "\r", "\n", "\r\n", "\u0130"], 5 if tier == "quick" else 6):
+        yield {"kind": "pair", "t": t}
     for _ in range(60000 if tier == "quick" else 500000):
         yield {"kind": "pair", "t": _persons(rng)}
     for t in C.token_strings(ALPHABET, 3):
@@ -523,6 +526,10 @@ def oracle(case):
         return _pipe_oracle(case)
     t = case["t"]
     names = split(t)
+    # "separating co-authors" is C12's exact rule; C14 builds on it, so a list that is separated wrongly in the first
+    # place is reported here as well (independent word-level reference; defined when no closing brace is unmatched)
+    if U.no_unmatched_close(t) and names != U.ref_split(t):
+        return "co-authors of %r separated as %r, the separator rule gives %r" % (t, names, U.ref_split(t))
     try:
         ps = [parse(x) for x in names]
     except InvalidNameError:
